@@ -8,23 +8,6 @@ import CedarGo.Model.Text.Marshal
 namespace CedarGo.Text
 open CedarGo
 
-def noFFFD (s : String) : Bool := !s.toList.contains replacementChar
-
-/-- the un-parenthesised `renderMin` rendering of `e` starts with an INT token -/
-def headInt : Expr → Bool
-  | .lit (.long n) => decide (0 ≤ n)
-  | .access e _ => decide (7 ≤ prec e) && headInt e
-  | .unop .isEmpty e => decide (7 ≤ prec e) && headInt e
-  | .binop op l _ =>
-    (match binForm op with
-     | .method _ => decide (7 ≤ prec l) && headInt l
-     | .infixOp _ lp _ => decide (lp ≤ prec l) && headInt l)
-  | .has e _ => decide (4 ≤ prec e) && headInt e
-  | .is e _ => decide (4 ≤ prec e) && headInt e
-  | .isIn e _ _ => decide (4 ≤ prec e) && headInt e
-  | .call fn (recv :: _) => isMethodName fn && decide (7 ≤ prec recv) && headInt recv
-  | _ => false
-
 /-- receiver / known function of an extension call, as `mkMethod` / `checkFunction` accept it -/
 def callOK (fn : String) (args : List Expr) : Bool :=
   if isMethodName fn then !args.isEmpty
@@ -33,23 +16,22 @@ def callOK (fn : String) (args : List Expr) : Bool :=
 mutual
 /-- the fragment of expressions for which the round trip `parse ∘ render` is PROVED.
     Not in the fragment (`false`): `like`, literals of sets / records / extension values, entity types that
-    are not paths of identifiers, strings containing U+FFFD, longs outside int64, records with duplicate keys, unknown
-    or receiver-less extension calls, and — for `renderMin` only — a negation whose operand's rendering
-    starts with an integer token (`-5.foo`: the known parser defect `negated-int-receiver`). -/
+    are not paths of identifiers, longs outside int64, records with duplicate keys, unknown
+    or receiver-less extension calls. -/
 def inFrag (full : Bool) : Expr → Bool
   | .lit (.bool _) => true
   | .lit (.long n) => decide (-9223372036854775808 ≤ n) && decide (n ≤ 9223372036854775807)
-  | .lit (.str s) => noFFFD s
-  | .lit (.entity ty id) => isPathName ty && noFFFD id
+  | .lit (.str _) => true
+  | .lit (.entity ty _) => isPathName ty
   | .lit _ => false
   | .var _ => true
   | .unop .not e => inFrag full e
-  | .unop .neg e => inFrag full e && (full || decide (prec e < 6) || isNonNegLong e || !headInt e)
+  | .unop .neg e => inFrag full e
   | .unop .isEmpty e => inFrag full e
   | .binop _ l r => inFrag full l && inFrag full r
   | .ite c t e => inFrag full c && inFrag full t && inFrag full e
-  | .access e a => inFrag full e && noFFFD a
-  | .has e a => inFrag full e && noFFFD a
+  | .access e _ => inFrag full e
+  | .has e _ => inFrag full e
   | .like .. => false
   | .is e ty => inFrag full e && isPathName ty
   | .isIn e ty r => inFrag full e && isPathName ty && inFrag full r
@@ -61,10 +43,10 @@ def inFragList (full : Bool) : List Expr → Bool
   | e :: es => inFrag full e && inFragList full es
 def inFragKVs (full : Bool) : List (String × Expr) → Bool
   | [] => true
-  | (k, e) :: kes => noFFFD k && inFrag full e && inFragKVs full kes
+  | (_, e) :: kes => inFrag full e && inFragKVs full kes
 end
 
-def uidOK (u : UID) : Bool := isPathName u.1 && noFFFD u.2
+def uidOK (u : UID) : Bool := isPathName u.1
 
 /-- principal / resource scopes of the grammar -/
 def scopePROK : Scope → Bool
@@ -84,74 +66,50 @@ def scopeAOK : Scope → Bool
   | .is _ => false
   | .isIn _ _ => false
 
-/-- annotation keys are pairwise different, values are printable -/
+/-- annotation keys are pairwise different -/
 def annsOK : List String → List (String × String) → Bool
   | _, [] => true
-  | known, (k, v) :: rest => !known.contains k && noFFFD v && annsOK (k :: known) rest
+  | known, (k, _) :: rest => !known.contains k && annsOK (k :: known) rest
 
 def headOKb (h : Head) : Bool :=
   annsOK [] h.annotations && scopePROK h.principal && scopeAOK h.action && scopePROK h.resource
 
 def headOf (p : Policy) : Head := ⟨p.annotations, p.effect, p.principal, p.action, p.resource⟩
 
-/-- policies covered by the proved round trip of `renderMin` / `renderFull`: distinct annotation keys, values
-    without U+FFFD, scope clauses of the grammar over path-shaped entity types, default position, every
+/-- policies covered by the proved round trip of `renderMin` / `renderFull`: distinct annotation keys, scope clauses of the grammar over path-shaped entity types, default position, every
     condition body in `inFrag` -/
 def policyOK (full : Bool) (p : Policy) : Bool :=
   headOKb (headOf p) && p.position == {} && p.conditions.all (fun c => inFrag full c.2)
 
-def isNegLong : Expr → Bool
-  | .lit (.long n) => decide (n < 0)
-  | _ => false
-
-/-- the un-parenthesised `MarshalCedar` text of `e` starts with an INT token -/
-def goHeadInt : Expr → Bool
-  | .lit (.long n) => decide (0 ≤ n)
-  | .access e _ => decide (7 ≤ goPrec e) && goHeadInt e
-  | .unop .isEmpty e => decide (7 ≤ goPrec e) && goHeadInt e
-  | .binop op l _ =>
-    (match goInfix op with
-     | none => decide (7 ≤ goPrec l) && goHeadInt l
-     | some (_, lp, _) => decide (lp ≤ goPrec l) && goHeadInt l)
-  | .has e _ => decide (4 ≤ goPrec e) && goHeadInt e
-  | .is e _ => decide (4 ≤ goPrec e) && goHeadInt e
-  | .isIn e _ _ => decide (4 ≤ goPrec e) && goHeadInt e
-  | .call fn (recv :: _) => isMethodName fn && decide (7 ≤ goPrec recv) && goHeadInt recv
-  | _ => false
-
 mutual
 /-- the domain on which `MarshalCedar` is PROVED to be read back to the identical tree: `inFrag` minus
-    * a negative long literal as receiver of a postfix form            (defect: written `-5.foo`)
-    * `-` applied to a non-negative literal                            (written `-5`: read back as the literal −5,
-                                                                        same meaning, different tree)
-    * `-` applied to a postfix chain whose text starts with an integer (parser defect `-5.foo`) -/
+    `-` applied to a non-negative literal (written `-5`: read back as the literal −5, same meaning, different tree) -/
 def inFragGo : Expr → Bool
   | .lit (.bool _) => true
   | .lit (.long n) => decide (-9223372036854775808 ≤ n) && decide (n ≤ 9223372036854775807)
-  | .lit (.str s) => noFFFD s
-  | .lit (.entity ty id) => isPathName ty && noFFFD id
+  | .lit (.str _) => true
+  | .lit (.entity ty _) => isPathName ty
   | .lit _ => false
   | .var _ => true
   | .unop .not e => inFragGo e
-  | .unop .neg e => inFragGo e && !isNonNegLong e && (decide (goPrec e < 6) || !goHeadInt e)
-  | .unop .isEmpty e => inFragGo e && !isNegLong e
-  | .binop op l r => inFragGo l && inFragGo r && ((goInfix op).isSome || !isNegLong l)
+  | .unop .neg e => inFragGo e && !isNonNegLong e
+  | .unop .isEmpty e => inFragGo e
+  | .binop _ l r => inFragGo l && inFragGo r
   | .ite c t e => inFragGo c && inFragGo t && inFragGo e
-  | .access e a => inFragGo e && noFFFD a && !isNegLong e
-  | .has e a => inFragGo e && noFFFD a
+  | .access e _ => inFragGo e
+  | .has e _ => inFragGo e
   | .like .. => false
   | .is e ty => inFragGo e && isPathName ty
   | .isIn e ty r => inFragGo e && isPathName ty && inFragGo r
   | .set es => inFragGoList es
   | .record kes => inFragGoKVs kes && decide ((kes.map (·.1)).Nodup)
-  | .call fn args => callOK fn args && inFragGoList args &&
-      (match args with | recv :: _ => !isMethodName fn || !isNegLong recv | [] => true)
+  | .call fn args => callOK fn args && inFragGoList args
 def inFragGoList : List Expr → Bool
   | [] => true
   | e :: es => inFragGo e && inFragGoList es
 def inFragGoKVs : List (String × Expr) → Bool
   | [] => true
-  | (k, e) :: kes => noFFFD k && inFragGo e && inFragGoKVs kes
+  | (_, e) :: kes => inFragGo e && inFragGoKVs kes
 end
 
 /-- policies on which `MarshalCedar` is proved to round-trip exactly (general head) -/
